@@ -1,4 +1,5 @@
 import Dtr.Proofs.Prec
+import Dtr.Proofs.SrcTables
 import Dtr.Proofs.ParserDenotes
 import Dtr.Proofs.RoundTrip
 import Dtr.Model.Eval
@@ -247,5 +248,12 @@ example : RoundTrip.render (.bin .add (.num 1) (.un .neg (.var "a"))) =
   rfl
 example : Expr.WF (.call "ite" [.bin .lt (.var "a") (.num 2), .un .bnot (.num 0), .call "random" [.num 8]]) := by
   simp [Expr.WF, Expr.WFList, funcArity]
+
+/-- **The precedence table is the source's** (`Dtr/Generated/Tables.lean`, regenerated from `/repo` on every run by
+`tools/gen_tables.py`): every operator token of `src/lexer/token.rs` that `From<TokenKind> for BinOp` maps denotes an
+operator of the model, every operator of the model is denoted by one, and the model's precedences are ordered exactly
+as the numbers of `BinOp::precedence` in `src/parser/binoptree.rs`.  (Vacuous when the translator does not recognise
+the source's shape; then the table dump through the hooks is the tie.) -/
+theorem C08_precedence_from_source : binopPrecedenceOK = true := binopPrecedence_from_source
 
 end Dtr
